@@ -136,6 +136,7 @@ type verifVCS struct {
 	resultCommit                                         any
 	resultPath                                           string
 	otherEntry                                           verifEntry
+	maxAttempts                                          int // 0 = unchecked
 	calls                                                int // every VCS/ChangeOps call
 	effects                                              int // workspace creations, writes, mode changes, commits
 }
@@ -161,6 +162,10 @@ func (v *verifVCS) GetChangeOps(ctx context.Context) (ChangeOps, error) {
 		v.retriedAfterNonRetriable = true
 	}
 	v.attempts++
+	if v.maxAttempts > 0 && v.attempts > v.maxAttempts {
+		verifAssert(false, "at most retries+1 attempts")
+		verifAssume(false, "stop an unbounded retry loop")
+	}
 	if v.concurrent && !v.otherDone && verifNondetBool("concurrent_commit") {
 		v.otherDone = true
 		mp := releaseManifestPath
